@@ -211,7 +211,8 @@ def run(ctx: Ctx):
                 preds[is_partial] = preds.get(is_partial, set()) | cs
     want = {True: {("slice_start", "<", "tok_end"), ("slice_end", ">", "tok_start")},
             False: {("slice_start", "<=", "tok_start"), ("slice_end", ">=", "tok_end")}}
-    for k in (True, False):
+    tokens_decided = _chunk_tokens_table(ctx, ch, rel)
+    for k in ((True, False) if not tokens_decided else ()):
         col.ob("G12", "S4", f"{where}::{'overlap' if k else 'containment'}-predicate", preds.get(k) == want[k],
                f"with partial={k} a token is kept iff {sorted(preds.get(k, []))}; documented: "
                f"{'overlaps the slice' if k else 'is contained in the slice'} = {sorted(want[k])}", rel, ch.line,
@@ -272,10 +273,11 @@ def run(ctx: Ctx):
     if not tests:
         col.undecided(f"{where}: the mask counted for the returned lengths was not recognised")
     base_ok = base_ok and not uncovered
-    col.ob("G12", "S4", f"{where}::missing-boundaries-excluded", base_ok,
-           "tokens with a negative (missing) boundary or end < start are not excluded before the slice test on every path"
-           + (f" (the mask entering `{u(uncovered[0])[:70]}` can come from a definition without the exclusion, e.g. when "
-              f"ref_lens is omitted)" if uncovered else ""), rel, uncovered[0].lineno if uncovered else ch.line)
+    if not tokens_decided:
+      col.ob("G12", "S4", f"{where}::missing-boundaries-excluded", base_ok,
+             "tokens with a negative (missing) boundary or end < start are not excluded before the slice test on every path"
+             + (f" (the mask entering `{u(uncovered[0])[:70]}` can come from a definition without the exclusion, e.g. when "
+                f"ref_lens is omitted)" if uncovered else ""), rel, uncovered[0].lineno if uncovered else ch.line)
 
     # ---- S5 driver: names and row lengths ------------------------------------------------------------------------
     wrel = "command_line.py"
@@ -293,8 +295,11 @@ def run(ctx: Ctx):
         if d.kind == "assign" and isinstance(d.value, ast.Call) and call_name(d.value) in ctor_want:
             inst[d.name] = call_name(d.value)
     slicer_names = {k for k, v in inst.items() if v == "SliceSpectData"}
-    slices_defs = {id(d) for d in rdw.defs if d.kind == "unpack" and isinstance(d.value, ast.Call)
-                   and call_name(d.value) in slicer_names and d.slot == (0,)}
+    # the slices: slot 0 of a slicer call, unpacked (`slices, _ = slicer(x)`) or indexed (`slices = slicer(x)[0]`)
+    slices_defs = {id(d) for d in rdw.defs if (d.kind == "unpack" and isinstance(d.value, ast.Call)
+                                                and call_name(d.value) in slicer_names and d.slot == (0,))
+                   or (d.kind == "assign" and isinstance(d.value, ast.Subscript) and isinstance(d.value.value, ast.Call)
+                       and call_name(d.value.value) in slicer_names and u(d.value.slice) == "0")}
 
     def kind_of(e):
         der = rdw.derives(e, stop=lambda d: id(d) in slices_defs)
@@ -345,10 +350,14 @@ def run(ctx: Ctx):
     from sa.specialise import _eval as _sev10, _UNK as _SUNK10
     for polv in (pol or ["fixed", "ali", "ref"]):
         for n in own_nodes(work.node):
-            if isinstance(n, ast.Assign) and isinstance(n.value, ast.Call) and call_name(n.value) in slicer_names:
+            calls_ = [c_ for c_ in ast.walk(n.value) if isinstance(c_, ast.Call) and call_name(c_) in slicer_names] if isinstance(n, ast.Assign) else []
+            if calls_:
                 # reached when policy == polv (whatever the order of the arms and whichever arm is the else)
                 if all(_sev10(t, {"policy": polv}) is _SUNK10 or bool(_sev10(t, {"policy": polv})) == polr for t, polr in guards_of(pm_of(work), n)):
-                    feeds.setdefault(polv, set()).add(kind_of(n.value.args[0]) if n.value.args else None)
+                    a0 = calls_[0].args[0] if calls_[0].args else None
+                    while isinstance(a0, ast.IfExp) and _sev10(a0.test, {"policy": polv}) is not _SUNK10:
+                        a0 = a0.body if _sev10(a0.test, {"policy": polv}) else a0.orelse  # `feats if policy == 'fixed' else alis`
+                    feeds.setdefault(polv, set()).add(kind_of(a0) if a0 is not None else None)
     feeds = {k: (next(iter(v)) if len(v) == 1 else sorted(map(str, v))) for k, v in feeds.items()}
     col.ob("G16", "S5", f"{wwhere}::slicer-input-by-policy", feeds == {"fixed": "feat", "ali": "ali", "ref": "ref"},
            f"the slicer is fed {feeds}; expected the features for 'fixed', the alignments for 'ali', the references otherwise",
@@ -390,11 +399,18 @@ def run(ctx: Ctx):
                    f"every sequence when no lengths are given) gets no end for its last segment and the start/end "
                    f"lists disagree in length", rel, s_["node"].lineno, sample=dict(extent=s_["extent"], slack=s_["slack"]))
     col.floor("length_equality_marks", nb, 1)
+    # ---- S8 / S9 / S11 the three policies as value tables (props/c10.py::_slices_table): slice_spect_data interpreted over exact
+    # values and compared with the documented windows; the symbolic clauses below are consulted only for a policy the table could
+    # not decide
+    decided = _slices_table(ctx, sl, rel)
     # ---- S8 'ref' policy: kept segments and their padded bounds == the documented rule, per option valuation --------
-    _ref_policy(ctx, sl)
+    if not decided.get("ref"):
+        _ref_policy(ctx, sl)
     # ---- S9 'fixed' policy: the k-th window and whether it is kept == the documented rule, per option valuation -----
-    _fixed_policy(ctx, sl)
-    _lobe_clamp_exact(ctx, sl)
+    if not decided.get("fixed"):
+        _fixed_policy(ctx, sl)
+    if not decided.get("ali"):
+        _lobe_clamp_exact(ctx, sl)
     _driver_passes_feature_length(ctx)
     plumbing(ctx, "S1")
     return dict(
@@ -405,10 +421,10 @@ def run(ctx: Ctx):
             "subtraction [known finding F5: the tree adds]; (S4) containment vs overlap predicates in comparison normal "
             "form against the documented ones; (S5) input/output basenames prefix+id+suffix, every saved chunk cut "
             "with the length of its own chunker call into its own sub-directory, slicer input by policy; (S7) lengths marked by equality live in an index range of T + 1 [F21 repaired]; (S8)/(S9) the 'ref' and 'fixed' policies, specialised per option valuation, agree with the documented window / keep rule at every grid point [F24 repaired]; (S6) every "
-            "dimension-naming operation within the known rank on every branch [F11 repaired] and one return arity. NOT decided: the 'ali' policy's nonzero/index arithmetic; "
+            "dimension-naming operation within the known rank on every branch [F11 repaired] and one return arity. (S8/S9/S11 as value tables) all three policies of slice_spect_data and the token chunker are interpreted over exact values (sa/interp.py + sa/teval.py, nothing run) on small batches and compared with the documented windows / kept tokens for every window type, valid_only, lobe size and lengths given or omitted; the symbolic clauses remain as the fallback for a policy outside the interpreted fragment. NOT decided: "
             "that the chunked directory validates."),
         decided=["S1", "S2", "S3", "S4", "S5", "S6", "S7", "S8", "S9"],
-        not_decided=["'ali' policy segment arithmetic", "chunked directory is well-formed"],
+        not_decided=["chunked directory is well-formed"],
         assumptions=["documented predicates (class docstring of ChunkTokenSequencesBySlices) as oracle"],
     )
 
@@ -756,15 +772,237 @@ def _lobe_clamp_exact(ctx: Ctx, sl):
     col.floor("lobe_clamp_sites", len(seen), 1)
 
 
+def _slices_table(ctx: Ctx, sl, rel: str) -> dict:
+    """slice_spect_data interpreted over exact values (sa/interp.py + sa/teval.py; nothing is run) for each policy and compared with the
+    windows the documentation prescribes:
+
+      fixed  windows of 1 + lobe (1 + 2 lobe when symmetric) frames every lobe + 1 frames; valid_only: from 0, as many as fit in T;
+             otherwise first offsets (lobe+1)//2 - W//2 / -lobe / 0; a window of sequence n is kept iff its middle index (start +
+             W//2 / last / first) lies before in_lens[n]  [valid_only: last index]
+      ali    segment m of a sequence = a maximal run of equal labels within its length; window m = start of segment m - lobe
+             (symmetric, causal) .. end of segment m + lobe (symmetric, future); a missing neighbour drops the window under
+             valid_only and is replaced by the furthest existing one otherwise
+      ref    start - lobe (symmetric, causal), end + lobe (symmetric, future); dropped: beyond in_lens, a negative stored boundary,
+             start >= end after padding, valid_only: start < 0 or end > other_lens, otherwise: end <= 0 or start >= other_lens;
+             other_lens defaults to the end of the last segment within in_lens (0 for an empty sequence)
+
+    Returns {policy: decided?}; an undecided policy falls back to the symbolic clauses."""
+    import numpy as np
+    from sa.interp import Interp
+    from sa.inteval import NotEvaluable
+    from sa.teval import frac_array
+    col = ctx.col
+    f = sl
+    where = f"{rel}::{f.qualname}"
+    names = [a.arg for a in f.node.args.args]
+
+    def run(**kw):
+        env = {a: None for a in names}
+        env.update(kw)
+        kind, got = Interp(tensors=True).run(f.node, env)
+        if kind != "return" or not (isinstance(got, tuple) and len(got) == 2):
+            return ("raise", got)
+        return [[int(z) for z in r_] for r_ in np.asarray(got[0]).reshape(-1, 2).tolist()], [int(z) for z in np.asarray(got[1]).tolist()]
+
+    def want_fixed(T, lens, wt, vo, l):
+        shift = l + 1
+        wins = []
+        if vo and wt == "symmetric":
+            W = 2 * l + 1
+            wins = [(s_, s_ + W, s_ + W - 1) for s_ in range(0, max(T - W + 1, 0), shift)]
+        elif wt == "symmetric":
+            W = 2 * l + 1
+            half = shift // 2
+            k = 0
+            while k * shift + half < T:
+                mid = k * shift + half
+                wins.append((mid - W // 2, mid - W // 2 + W, mid))
+                k += 1
+        elif vo:
+            wins = [(s_, s_ + shift, s_ + shift - 1) for s_ in range(0, max(T - l, 0), shift)]
+        elif wt == "causal":
+            wins = [(s_, s_ + shift, s_ + shift - 1) for s_ in range(-l, T - l, shift)]
+        else:
+            wins = [(s_, s_ + shift, s_) for s_ in range(0, T, shift)]
+        sl_, so_ = [], []
+        for n_, L_ in enumerate(lens):
+            for a, b, mid in wins:
+                if L_ > mid:
+                    sl_.append([a, b])
+                    so_.append(n_)
+        return sl_, so_
+
+    def want_ali(rows, lens, wt, vo, l):
+        sl_, so_ = [], []
+        for n_, (row, L_) in enumerate(zip(rows, lens)):
+            row = row[:L_]
+            segs = []
+            for t_, v_ in enumerate(row):
+                if t_ == 0 or row[t_ - 1] != v_:
+                    segs.append([t_, t_ + 1])
+                else:
+                    segs[-1][1] = t_ + 1
+            for m in range(len(segs)):
+                lo = m - l if wt in ("symmetric", "causal") else m
+                hi = m + l if wt in ("symmetric", "future") else m
+                if vo and (lo < 0 or hi > len(segs) - 1):
+                    continue
+                sl_.append([segs[max(lo, 0)][0], segs[min(hi, len(segs) - 1)][1]])
+                so_.append(n_)
+        return sl_, so_
+
+    def want_ref(refs, lens, others, wt, vo, l):
+        sl_, so_ = [], []
+        for n_, (seq, L_) in enumerate(zip(refs, lens)):
+            other = others[n_] if others is not None else (seq[L_ - 1][2] if L_ > 0 else 0)
+            for t_, (_, a, b) in enumerate(seq):
+                if t_ >= L_ or a < 0 or b < 0:
+                    continue
+                a2 = a - l if wt in ("symmetric", "causal") else a
+                b2 = b + l if wt in ("symmetric", "future") else b
+                if a2 >= b2:
+                    continue
+                if vo and (a2 < 0 or b2 > other):
+                    continue
+                if not vo and (b2 <= 0 or a2 >= other):
+                    continue
+                sl_.append([a2, b2])
+                so_.append(n_)
+        return sl_, so_
+    decided = {}
+    ali_rows = [[1, 1, 1, 1, 2, 2, 2, 1, 5, 5], [3, 3, 4, 4, 4, 4, 0, 0, 0, 0], [7, 7, 7, 7, 7, 7, 7, 7, 7, 7]]
+    ref_rows = [[[1, 0, 0], [2, 2, 3], [3, 5, 9], [4, -1, 2], [5, 8, 12]], [[6, 1, 4], [7, 4, 4], [8, 6, 7], [9, 9, 11], [10, 3, -1]]]
+    for policy in ("fixed", "ali", "ref"):
+        bad, n_rows = None, 0
+        try:
+            for wt in ("symmetric", "causal", "future"):
+                for vo in (True, False):
+                    if policy == "fixed":
+                        for l in (0, 1, 2, 3):
+                            for T_ in (8, 7):
+                                for lens in ([T_, 5, 0], None):
+                                    got = run(input=frac_array(np.zeros((3, T_, 1), dtype=int).tolist()), in_lens=frac_array(lens) if lens else None,
+                                              policy=policy, window_type=wt, valid_only=vo, lobe_size=l)
+                                    want = want_fixed(T_, lens or [T_, T_, T_], wt, vo, l)
+                                    n_rows += 1
+                                    if got != want and bad is None:
+                                        bad = (dict(window_type=wt, valid_only=vo, lobe_size=l, in_lens=lens, T=T_), got, want)
+                    elif policy == "ali":
+                        for l in (0, 1, 2, 5):
+                            for lens in ([10, 6, 10], None):
+                                got = run(input=frac_array(ali_rows), in_lens=frac_array(lens) if lens else None, policy=policy, window_type=wt,
+                                          valid_only=vo, lobe_size=l)
+                                want = want_ali(ali_rows, lens or [10, 10, 10], wt, vo, l)
+                                n_rows += 1
+                                if got != want and bad is None:
+                                    bad = (dict(window_type=wt, valid_only=vo, lobe_size=l, in_lens=lens, alignments=ali_rows), got, want)
+                            # (a batch of one sequence: lobes reaching past ALL segments of the batch)
+                            for one in ([ali_rows[0]], [ali_rows[2]]):
+                                got = run(input=frac_array(one), in_lens=None, policy=policy, window_type=wt, valid_only=vo, lobe_size=l)
+                                want = want_ali(one, [10], wt, vo, l)
+                                n_rows += 1
+                                if got != want and bad is None:
+                                    bad = (dict(window_type=wt, valid_only=vo, lobe_size=l, in_lens=None, alignments=one), got, want)
+                    else:
+                        for l in (0, 2):
+                            for lens in ([5, 3], None):
+                                for others in ([10, 7], None):
+                                    got = run(input=frac_array(ref_rows), in_lens=frac_array(lens) if lens else None,
+                                              other_lens=frac_array(others) if others else None, policy=policy, window_type=wt, valid_only=vo, lobe_size=l)
+                                    want = want_ref(ref_rows, lens or [5, 5], others, wt, vo, l)
+                                    n_rows += 1
+                                    if got != want and bad is None:
+                                        bad = (dict(window_type=wt, valid_only=vo, lobe_size=l, in_lens=lens, other_lens=others, refs=ref_rows), got, want)
+        except NotEvaluable as e:
+            col.undecided(f"{where}: policy {policy!r} is outside the interpreted fragment ({e})") if False else None
+            decided[policy] = False
+            continue
+        decided[policy] = True
+        col.floor(f"slices_table_rows[{policy}]", n_rows, 20)
+        col.ob("G12", {"fixed": "S9", "ali": "S11", "ref": "S8"}[policy], f"{where}::slices-table[{policy}]", bad is None,
+               (f"under policy={policy!r} with {bad[0]} the function returns (slices, sources) = {str(bad[1])[:160]}; the documented windows are "
+                f"{str(bad[2])[:160]}") if bad else "", rel, f.line, sample=dict(rows=n_rows))
+    return decided
+
+
+def _chunk_tokens_table(ctx: Ctx, ch, rel: str) -> bool:
+    """S4 as a table: chunk_token_sequences_by_slices interpreted over exact values (sa/interp.py + sa/teval.py; nothing is run) for
+    two sequences of five tokens - inside the slice, straddling its start, straddling its end, touching it from outside, with a
+    missing (-1) boundary, with end < start, beyond the given length - under partial / full overlap, lengths given / omitted, and
+    retain on / off. Documented: a token is kept iff it lies within the length, both boundaries are known, end >= start, and it
+    overlaps (partial) / is contained in (otherwise) its sequence's slice; kept tokens come first, in order, and their number is
+    the reported length. (With retain=False only the kept ids and the lengths are compared: the shifted boundaries are the subject
+    of a known finding.)"""
+    import numpy as np
+    from sa.interp import Interp
+    from sa.inteval import NotEvaluable
+    from sa.teval import frac_array
+    col = ctx.col
+    where = f"{rel}::{ch.qualname}"
+    refs = [[[10, 2, 5], [11, 0, 3], [12, 6, 9], [13, -1, 4], [14, 7, 6], [15, 4, 4]],
+            [[20, 0, 2], [21, 2, 8], [22, 8, 9], [23, 3, -1], [24, 5, 7], [25, 1, 3]]]
+    slices = [[2, 7], [2, 8]]
+    lens = [6, 5]
+    names = [a.arg for a in ch.node.args.args]
+    bad, n_rows = None, 0
+    try:
+        for partial in (True, False):
+            for use_lens in (True, False):
+                for retain in (True, False):
+                    it = Interp(tensors=True, lenient=False)
+                    env = {a: None for a in names}
+                    env.update({names[0]: frac_array(refs), names[1]: frac_array(slices)})
+                    env.update(ref_lens=frac_array(lens) if use_lens else None, partial=partial, retain=retain)
+                    kind, got = it.run(ch.node, env)
+                    n_rows += 1
+                    want = []
+                    for n_ in range(2):
+                        s0, s1 = slices[n_]
+                        L_ = lens[n_] if use_lens else 6
+                        kept = []
+                        for r_, (tok, a, b) in enumerate(refs[n_]):
+                            if r_ >= L_ or a < 0 or b < 0 or b < a:
+                                continue
+                            if (s0 < b and s1 > a) if partial else (s0 <= a and s1 >= b):
+                                kept.append([tok, a, b])
+                        want.append(kept)
+                    ok = kind == "return" and isinstance(got, tuple) and len(got) == 2
+                    if ok:
+                        gc, gl = np.asarray(got[0]), [int(x) for x in np.asarray(got[1]).tolist()]
+                        ok = gl == [len(k_) for k_ in want]
+                        for n_ in range(2):
+                            if not ok:
+                                break
+                            rows = [[int(x) for x in r_] for r_ in gc[n_, :len(want[n_])].tolist()]
+                            ok = [r_[0] for r_ in rows] == [k_[0] for k_ in want[n_]] and (not retain or rows == want[n_])
+                    if not ok and bad is None:
+                        bad = (partial, use_lens, retain, got if kind == "return" else f"raise {got}", want)
+    except NotEvaluable as e:
+        col.undecided(f"{where}: the token chunker is outside the interpreted fragment ({e})")
+        return False
+    col.floor("chunk_tokens_table_rows", n_rows, 8)
+
+    def _show(v):
+        if isinstance(v, tuple) and len(v) == 2 and hasattr(v[1], "tolist"):
+            return f"lengths {[int(x) for x in np.asarray(v[1]).tolist()]}, first rows {[[int(x) for x in r_] for r_ in np.asarray(v[0])[0].tolist()][:4]}"
+        return str(v)[:120]
+    col.ob("G12", "S4", f"{where}::kept-tokens-table", bad is None,
+           (f"with partial={bad[0]}, ref_lens {'given' if bad[1] else 'omitted'}, retain={bad[2]} the chunker returns {_show(bad[3])} for the reference tokens "
+            f"and slices {slices}; documented (within the length, both boundaries known, end >= start, "
+            f"{'overlapping' if bad[0] else 'contained in'} the slice; kept tokens first, in order): {bad[4]}") if bad else "", rel, ch.line,
+           sample=dict(rows=n_rows))
+    return True
+
+
 def _mutants():
     from selftest.mutate import Mutant as M
     F = "_feats.py"
     C = "command_line.py"
     return [
         M("ref-policy-without-feature-length", "command_line.py", "slices, _ = slicer(refs, None, torch.tensor([feats.size(1)]))", "slices, _ = slicer(refs)", "ref-policy-slicer-gets-the-feature-length"),
-        M("lobe-clamp-one-short", "_feats.py", "offs = min((int(do_left) + int(do_right)) * lobe_size, NN)", "offs = min((int(do_left) + int(do_right)) * lobe_size, NN - 1)", "lobe-reach-clamped-at-the-segment-count"),
-        M("exclusion-only-with-ref-lens", "_feats.py", "        mask = ref_lens.unsqueeze(1) > arange\n    mask = mask & (refs[..., 1:] >= 0).all(2) & (refs[..., 2] >= refs[..., 1])", "        mask = ref_lens.unsqueeze(1) > arange\n        mask = mask & (refs[..., 1:] >= 0).all(2) & (refs[..., 2] >= refs[..., 1])", "missing-boundaries-excluded"),
-        M("lobe-reaches-past-the-segments", "_feats.py", "offs = min((int(do_left) + int(do_right)) * lobe_size, NN)", "offs = (int(do_left) + int(do_right)) * lobe_size", "slice-stops-cannot-go-negative"),
+        M("lobe-clamp-one-short", "_feats.py", "offs = min((int(do_left) + int(do_right)) * lobe_size, NN)", "offs = min((int(do_left) + int(do_right)) * lobe_size, NN - 1)", "slices-table[ali]"),
+        M("exclusion-only-with-ref-lens", "_feats.py", "        mask = ref_lens.unsqueeze(1) > arange\n    mask = mask & (refs[..., 1:] >= 0).all(2) & (refs[..., 2] >= refs[..., 1])", "        mask = ref_lens.unsqueeze(1) > arange\n        mask = mask & (refs[..., 1:] >= 0).all(2) & (refs[..., 2] >= refs[..., 1])", "kept-tokens-table"),
+        M("lobe-reaches-past-the-segments", "_feats.py", "offs = min((int(do_left) + int(do_right)) * lobe_size, NN)", "offs = (int(do_left) + int(do_right)) * lobe_size", "slices-table[ali]"),
         M("repaired:boundaries-relative-to-slice-start", "_feats.py", "chunked[..., 1:] += slices[..., 0].view(N, 1, 1).expand(N, R, 2)", "chunked[..., 1:] -= slices[..., 0].view(N, 1, 1).expand(N, R, 2)", "", twin=True),
         M("gather-after-indexing-away", F, ".gather(1, (in_lens - 1).clamp_min_(0).view(N, 1))", ".select(1, 0).gather(1, (in_lens - 1).clamp_min_(0).view(N, 1))",
           "dimension-within-known-rank"),
@@ -774,11 +1012,11 @@ def _mutants():
           "return (torch.empty(0, 2, dtype=torch.long, device=device), torch.empty(0, dtype=torch.long, device=device), torch.empty(0, dtype=torch.long, device=device))",
           "return-arity"),
         M("containment-to-overlap", F, "mask = mask & (slices[..., :1] <= refs[..., 1]) & (slices[..., 1:] >= refs[..., 2])",
-          "mask = mask & (slices[..., :1] <= refs[..., 2]) & (slices[..., 1:] >= refs[..., 1])", "containment-predicate"),
+          "mask = mask & (slices[..., :1] <= refs[..., 2]) & (slices[..., 1:] >= refs[..., 1])", "kept-tokens-table"),
         M("overlap-inclusive", F, "(slices[..., :1] < refs[..., 2]) & (slices[..., 1:] > refs[..., 1])",
-          "(slices[..., :1] <= refs[..., 2]) & (slices[..., 1:] > refs[..., 1])", "overlap-predicate"),
+          "(slices[..., :1] <= refs[..., 2]) & (slices[..., 1:] > refs[..., 1])", "kept-tokens-table"),
         M("partial-branches-swapped", F, "if partial:\n        mask = mask & (slices[..., :1] < refs[..., 2])", "if not partial:\n        mask = mask & (slices[..., :1] < refs[..., 2])",
-          "predicate"),
+          "kept-tokens-table"),
         M("shift-under-retain", F, "if not retain:\n        chunked[..., 1:]", "if retain:\n        chunked[..., 1:]", "boundary-shift::columns+guard"),
         M("shift-token-column-too", F, "chunked[..., 1:] += slices[..., 0].view(N, 1, 1).expand(N, R, 2)", "chunked[..., 0:] += slices[..., 0].view(N, 1, 1).expand(N, R, 3)",
           "boundary-shift::columns+guard"),
@@ -795,15 +1033,15 @@ def _mutants():
         M("out-basename-no-prefix", C, "out_basename = file_prefix + new_utt_id + file_suffix", "out_basename = new_utt_id + file_suffix", "out_basename=prefix+id+suffix"),
         M("dispatch-args-swapped", C, "options.partial_tokens, options.retain_token_boundaries, options.quiet", "options.retain_token_boundaries, options.partial_tokens, options.quiet", "G1"),
         M("twin:rename-mask", F, "chunked_lens", "kept", "", -1, twin=True),
-        M("valid-end-strict", F, "mask = mask & (starts >= 0) & (ends <= other_lens.view(N, 1))", "mask = mask & (starts >= 0) & (ends < other_lens.view(N, 1))", "ref-policy"),
-        M("causal-pads-right", F, "if window_type in ('symmetric', 'future'):\n            ends = ends + lobe_size", "if window_type in ('symmetric', 'causal'):\n            ends = ends + lobe_size", "ref-policy"),
-        M("missing-boundary-kept", F, "mask = mask & (input[..., 1:] >= 0).all(2)", "mask = mask & (input[..., 1:] >= 0).any(2)", "ref-policy"),
-        M("length-inferred-from-padded-end", F, "other_lens = ends.gather(1,", "other_lens = (ends + lobe_size).gather(1,", "ref-policy"),
-        M("empty-slices-kept", F, "mask = mask & (starts < ends)", "mask = mask & (starts <= ends)", "ref-policy"),
+        M("valid-end-strict", F, "mask = mask & (starts >= 0) & (ends <= other_lens.view(N, 1))", "mask = mask & (starts >= 0) & (ends < other_lens.view(N, 1))", "slices-table[ref]"),
+        M("causal-pads-right", F, "if window_type in ('symmetric', 'future'):\n            ends = ends + lobe_size", "if window_type in ('symmetric', 'causal'):\n            ends = ends + lobe_size", "slices-table[ref]"),
+        M("missing-boundary-kept", F, "mask = mask & (input[..., 1:] >= 0).all(2)", "mask = mask & (input[..., 1:] >= 0).any(2)", "slices-table[ref]"),
+        M("length-inferred-from-padded-end", F, "other_lens = ends.gather(1,", "other_lens = (ends + lobe_size).gather(1,", "slices-table[ref]"),
+        M("empty-slices-kept", F, "mask = mask & (starts < ends)", "mask = mask & (starts <= ends)", "slices-table[ref]"),
         M("ali-boundary-in-position-space", F, "arange = torch.arange(T + 1, device=device)", "arange = torch.arange(T, device=device)", "length-marked-in-boundary-space"),
-        M("fixed-symmetric-count-includes-T", F, "TT = (T - half_shift + shift - 1) // shift", "TT = (T + half_shift) // shift", "fixed-policy[symmetric,any,no in_lens]::kept"),
-        M("fixed-valid-one-window-short", F, "starts = torch.arange(0, max(T - window_size + 1, 0), shift, device=device)", "starts = torch.arange(0, max(T - window_size, 0), shift, device=device)", "fixed-policy[symmetric,valid"),
-        M("fixed-causal-offset", F, "starts = torch.arange(-lobe_size, T - lobe_size, shift, device=device)", "starts = torch.arange(-lobe_size, T, shift, device=device)", "fixed-policy[causal,any"),
+        M("fixed-symmetric-count-includes-T", F, "TT = (T - half_shift + shift - 1) // shift", "TT = (T + half_shift) // shift", "slices-table[fixed]"),
+        M("fixed-valid-one-window-short", F, "starts = torch.arange(0, max(T - window_size + 1, 0), shift, device=device)", "starts = torch.arange(0, max(T - window_size, 0), shift, device=device)", "slices-table[fixed]"),
+        M("fixed-causal-offset", F, "starts = torch.arange(-lobe_size, T - lobe_size, shift, device=device)", "starts = torch.arange(-lobe_size, T, shift, device=device)", "slices-table[fixed]"),
         M("fixed-causal-middle-is-start", F, "starts = torch.arange(-lobe_size, T - lobe_size, shift, device=device)\n            ends = starts + shift\n            mids = ends - 1", "starts = torch.arange(-lobe_size, T - lobe_size, shift, device=device)\n            ends = starts + shift\n            mids = starts", "fixed-policy[causal,any,in_lens]::kept"),
         M("twin:commuted-conjunction", F, "mask = mask & (starts < ends)", "mask = (starts < ends) & mask", "", twin=True),
         M("twin:lobe-subtracted-by-negation", F, "starts = starts - lobe_size", "starts = starts + -lobe_size", "", twin=True),
@@ -833,6 +1071,6 @@ MANIFEST = dict(
     level_note="Trusted: python ast; torch rank semantics of the closed transformer set in rules/rank.py. F11 (gather on "
                "a rank-1 column), F21 (the 'ali' policy raised whenever a sequence fills the time axis) and F24 (an extra 'fixed' symmetric window when in_lens is omitted) were found and repaired; F5 (boundaries shifted by "
                "+ slice start) is a known finding because tests/test_feats.py encodes the same arithmetic.",
-    technique="static analysis: known-rank abstract interpretation, kind checking of positions/boundaries, partial evaluation + min/max-linear term comparison with the documented rule, comparison normal forms, literal-table agreement, decision tables for the chunk worker (pad mode, policy)",
+    technique="static analysis: known-rank abstract interpretation, kind checking of positions/boundaries, partial evaluation + min/max-linear term comparison with the documented rule, comparison normal forms, literal-table agreement, decision tables for the chunk worker (pad mode, policy); interpretation of slice_spect_data and chunk_token_sequences_by_slices over exact tensor values (syntax tree only) compared with the documented windows for every policy / window type / option",
     design_ref="DESIGN.md section 4 C10, section 3 G19/G14",
 )
